@@ -397,7 +397,41 @@ def totality_cut(chk, f, site):
     return False, "unrecognised call in the serialization-failure handler"
 
 
+def rule_builtin_extractors(chk):
+    """Extractors the library registers itself return a dict on every path (finish() and
+    the traceback writer store into the result unguarded)."""
+    ctx = chk.ctx
+    p = ctx.p
+    n = 0
+    for m in p.prod_modules():
+        for st in m.tree.body:
+            if isinstance(st, ast.Expr) and isinstance(st.value, ast.Call) and unparse(st.value.func).endswith("register_exception_extractor") and len(st.value.args) == 2:
+                n += 1
+                fx = st.value.args[1]
+                ok = False
+                detail = unparse(fx)[:60]
+                if isinstance(fx, ast.Lambda):
+                    ok = isinstance(fx.body, ast.Dict) or (isinstance(fx.body, ast.Call) and unparse(fx.body.func) == "dict")
+                else:
+                    r = p.resolve_expr_static(m, None, fx)
+                    if r and r[0] == "func":
+                        g = r[1]
+                        cfg = ctx.cfg(g)
+                        rets = [x for x in cfg.live if x.kind == "return"]
+                        falls = any(pn.kind != "return" and l != "return" for pn, l in cfg.exit.pred)
+                        ok = bool(rets) and not falls and all(isinstance(x.ast.value, (ast.Dict, ast.DictComp)) or (isinstance(x.ast.value, ast.Call) and unparse(x.ast.value.func) == "dict") for x in rets)
+                        detail = g.fq
+                chk.req(ok, "C07.extractors", "%s:built-in-extractor-returns-a-dict-on-every-path(%s)" % (m.short, unparse(st.value.args[0])), "%s:%d" % (m.relpath, st.lineno),
+                        good="%s always returns a dict" % detail,
+                        fail="the extractor the library registers for %s (%s) can return a non-dict (e.g. None by falling off the end): finish()/write_traceback store into the result and raise TypeError, replacing the application's exception"
+                             % (unparse(st.value.args[0]), detail))
+    chk.instances("C07.extractors:library-registered extractors", n, 1)
+
+
 def run(chk):
+    rule_builtin_extractors(chk)
+    from . import c10
+    c10.rule_rich(chk)
     rule_contain(chk)
     rule_core(chk)
     rule_mem_validate(chk)
